@@ -1,9 +1,62 @@
 """C15 check configuration (data only)."""
+import importlib.util
+import os
+import re
+import subprocess
+import time
+
 from propbase import KERNEL, HARNESS
 
+_root = os.path.dirname(os.path.dirname(os.path.abspath(__file__)))
+
+
+def _load(name):
+    spec = importlib.util.spec_from_file_location("translate_" + name, os.path.join(_root, "translate", name + ".py"))
+    mod = importlib.util.module_from_spec(spec)
+    spec.loader.exec_module(mod)
+    return mod
+
+
+_dfa = _load("dfa")
+_c15prod = _load("c15prod")
+
+
+def prod_model_agreement(ctx):
+    """The production NFAs through the MODEL of compile (Automata/Compile.v): the DFA the model
+    computes must equal the production DFA state for state (same numbering).  utf8 and command
+    always; event (about 4 minutes of vm_compute on unary state ids) in the thorough tier."""
+    names = ["utf8", "command"] + (["event"] if ctx["tier"] == "thorough" else [])
+    d = os.path.join(ctx["build"], "c15prod")
+    os.makedirs(d, exist_ok=True)
+    src = "From Coq Require Import List NArith.\nFrom SNT Require Import Corr.C15Prod Gen.ProdNFA Gen.ProdDFA.\n"
+    for nm in names:
+        src += "Eval vm_compute in (prod_agree 4096 (Nat.mul 400 400) %s_nfa_data %s_data).\n" % (nm, nm)
+    path = os.path.join(d, "prod_agree.v")
+    with open(path, "w") as f:
+        f.write(src)
+    t0 = time.time()
+    p = subprocess.run(["coqc", "-noglob", "-Q", os.path.join(ctx["coq"], "theories"), "SNT", path], cwd=d,
+                       stdout=subprocess.PIPE, stderr=subprocess.STDOUT, text=True, timeout=3000)
+    codes = re.findall(r"=\s*(\d+)%N", p.stdout)
+    res = {"violations": [], "coverage": {"production_automata_through_model": names}, "notes": [
+        "model compile vs production DFA (%s): codes %s, %.1fs" % (", ".join(names), codes, time.time() - t0)]}
+    if p.returncode != 0 or len(codes) != len(names):
+        res["violations"].append({"kind": "broken-correspondence", "what": "cannot evaluate the model of compile on the production NFAs: " + p.stdout[-800:], "case": {}})
+        return res
+    what = {"1": "start state", "2": "number of states", "3": "transition table", "4": "accepting/terminal/tags"}
+    for nm, c in zip(names, codes):
+        if c != "0":
+            res["violations"].append({"kind": "broken-correspondence",
+                                      "what": "the model of NFA::compile run on the production %s NFA does not reproduce the production DFA (%s; code %s)" % (nm, what.get(c, "model panic/fuel"), c),
+                                      "case": {"automaton": nm}})
+    return res
+
+
 PROP = {'gen': [],
+ 'pre_coq': [_dfa.pre_coq, _c15prod.pre_coq],
+ 'extra': [prod_model_agreement],
  'coq_props': ['theories/Props/C15.vo'],
- 'coq_corr': ['theories/Corr/C15Corr.vo'],
+ 'coq_corr': ['theories/Corr/C15Corr.vo', 'theories/Corr/C15Prod.vo'],
  'props_file': 'theories/Props/C15.v',
  'props_module': 'Props.C15',
  'corr_check': 'SNT.Corr.C15Corr.c15_check (model Automata/{NFA,Build,Compile}.v vs surf_n_term::automata::{NFA, DFA}: NFA graph from '
